@@ -2,6 +2,7 @@ SPECIFICATION Spec
 CONSTANTS
   Fams <- QuickFams
   D_SwapDelete = TRUE
+  M_BuffersPerInstance = TRUE
   M_AllDocumentKindsFiltered = TRUE
   Cap = 2
   M_DepthBuffersDisjoint = TRUE
